@@ -491,8 +491,10 @@ class SeedStream(Stream):
         return impl_out if case["judged"] else ("boundary", impl_out)
 
 
+import c10s6      # noqa: E402  (needs the classes above)
+
 PROPERTY = Property(
     pid="C10",
-    streams=[TheoremStream(), Theorem2Stream(), StyleTableStream(), annotcorr.CommentAtStream(), annotcorr.CreateCommentStream(), CliStream(), SeedStream()],
+    streams=[TheoremStream(), Theorem2Stream(), StyleTableStream(), annotcorr.CommentAtStream(), annotcorr.CreateCommentStream(), CliStream(), SeedStream()] + c10s6.STREAMS,
     assumptions=[],
 )
